@@ -52,7 +52,8 @@ META = dict(
     technique='Lean 4 algebraic theorems (group-ring / linear functional) + verified exact residual checker on the '
               "implementation's G values + exact group-ring tie of omega_qij + numpy oracles",
     rule='networks: 12 interstitial networks (FCC/BCC/HCP/SC/zincblende/triclinic/2-D), 11 vacancy crystals, symmetry-closed '
-         'disconnected sub-networks, random low-symmetry 2-D/3-D crystals; data: perfect-square prefactors and energies in units '
+         'disconnected sub-networks, random low-symmetry 2-D/3-D crystals, re-descriptions of the zoo crystals by unimodular basis changes '
+         '(det +1 and -1, noreduce=True); every data set is re-evaluated with all rates scaled by 1e-9 ... 1e9 (prefactors or barrier shift); data: perfect-square prefactors and energies in units '
          'of ln(3/2) (exact rational symmetrised rates) and generic floats; points: all-zero separation, random separations '
          'within 2 cells, separations at a quarter of the k-mesh period; a case = (network, data, point, oracle); non-trivial = '
          'several sites or non-uniform rates or non-zero separation',
@@ -341,10 +342,8 @@ def work(task):
             datarep = dict(kind='generic', pre=args[0], betaene=args[1], preT=args[2], betaeneT=args[3])
         prev_args = args
         rep0 = dict(desc, data=datarep)
-        lam = rng.choice([0.037, 0.5, 3.7, 41.0])
         try:
             gf4.SetRates(*args); gf6.SetRates(*args)
-            gfs.SetRates(args[0], args[1], [lam * p for p in args[2]], args[3])
         except Exception as e:
             aniso = Ndiff > 1 and isinstance(e, ArithmeticError) and 'isotropizing' in str(e)
             sig = 'setrates-raises:ArithmeticError:disconnected-anisotropic' if aniso else \
@@ -421,6 +420,13 @@ def work(task):
                 return float(g(k, j, x))
             except ArithmeticError as e:
                 if 'complex IFT' not in str(e): raise
+                if 'nan' in str(e).lower():
+                    count('call:nan')
+                    if not nan_seen:
+                        nan_seen.append(1)
+                        viol('call-raises:ArithmeticError:nan:%s' % name, 'GFCrystalcalc.__call__(%d,%d,%s) produced NaN (%s) on %s (Nmax=%d calculator, rates as last set)'
+                             % (k, j, x.tolist(), e, name, which), dict(rep0, i=k, j=j, dx=x.tolist()))
+                    return None
                 count('call:complex-ift')
                 if not complex_seen:
                     complex_seen.append(1)
@@ -430,6 +436,7 @@ def work(task):
                          dict(rep0, i=k, j=j, dx=x.tolist(), Nmax=which))
                 return None
         complex_seen = []
+        nan_seen = []
 
         def ev(k, j, z):
             key = (k, j, tuple(z))
@@ -493,24 +500,70 @@ def work(task):
                 if not abs(gg - g4) <= tol + 5 * abs(gg6 - gg):
                     viol('group:%s' % rtag, 'G(%d,%d,dx)=%.12g but G(g i,g j,g dx)=%.12g on %s' % (k, j, g4, gg, name),
                          dict(rep0, i=k, j=j, dx=x.tolist(), rot=g.rot.tolist(), gi=gi, gj=gj, gdx=gx.tolist(), G=g4, G_image=gg, tol=tol))
-            gl = call(gfs, k, j, x, 4)
-            if gl is None: continue
-            gl *= lam
-            rec['cases'].append((('scale', name, kind, key, lam), True))
-            if dim == 2:
-                # logarithmic GF: only differences are meaningful
-                key0 = next(kk for kk in keys if kk[0] == k and kk[1] == j)
-                gl0 = call(gfs, k, j, zcart(key0[2]), 4)
-                if gl0 is None: continue
-                d_impl = gl - gl0 * lam
-                d_ref = g4 - G4[key0]
-                bad = not abs(d_impl - d_ref) <= 2 * tol + 5 * abs(G4[key0] - G6[key0])
+        # ---- uniform rate scaling over many decades: G_s = G_1 / s, D_s = s D, equation residual unchanged.
+        # Homogeneity is exact (theorems G_scale, residual_scale) and the calculator normalises by maxrate, so the clean
+        # code reproduces it to rounding; a deviation above rounding is a model/implementation disagreement, a deviation
+        # above the BZ accuracy a violation of the scaling clause.
+        decades = [1e-9, 1e-6, 1e-3, 1e3, 1e6, 1e9]
+        lams = [rng.choice([1e-9, 1e-6, 1e6, 1e9]), rng.choice([1e-3, 1e3, 0.037, 41.0] + decades)]
+        for lam in lams:
+            if rng.random() < 0.5:
+                sargs = (args[0], args[1], [lam * p for p in args[2]], args[3]); how = 'transition prefactors x %g' % lam
             else:
-                d_impl, d_ref = gl, g4
-                bad = not abs(gl - g4) <= tol
-            if bad:
-                viol('scale:%s' % rtag, 'rates scaled by %g: lambda*G_lambda=%.12g but G=%.12g (%s) on %s' % (lam, d_impl, d_ref, 'differences' if dim == 2 else 'values', name),
-                     dict(rep0, i=k, j=j, dx=x.tolist(), lam=lam, scaled=d_impl, unscaled=d_ref, tol=tol))
+                sargs = (args[0], args[1], args[2], [b - math.log(lam) for b in args[3]]); how = 'barriers shifted by %+.3f kT' % (-math.log(lam))
+            count('scale:decade=%+d' % int(round(math.log10(lam))))
+            try:
+                gfs.SetRates(*sargs)
+                Ds = np.array(gfs.D)
+            except Exception as e:
+                viol('scale-raises:%s:%s' % (type(e).__name__, rtag), 'SetRates raised %r after uniform scaling of all rates by %g (%s) on %s; it succeeds at scale 1'
+                     % (e, lam, how, name), dict(rep0, lam=lam, how=how))
+                continue
+            D1 = np.array(gf4.D)
+            rec['cases'].append((('scale-D', name, kind, str(datarep)[:80], lam), True))
+            if not np.abs(Ds - lam * D1).max() <= 1e-9 * lam * np.abs(D1).max():
+                viol('scale-D:%s' % rtag, 'rates scaled by %g (%s): D_s/s differs from D on %s' % (lam, how, name),
+                     dict(rep0, lam=lam, how=how, D_scaled_over_s=(Ds / lam).tolist(), D=D1.tolist()))
+            worst_round = 0.0
+            for key in rng.sample(keys, min(len(keys), 8)):
+                k, j, z = key
+                x = zcart(z)
+                gl = call(gfs, k, j, x, 4)
+                if gl is None: continue
+                gl *= lam
+                g4, g6 = G4[key], G6[key]
+                tol = 5 * abs(g4 - g6) + FLOOR * gscale
+                rec['cases'].append((('scale', name, kind, key, lam), True))
+                if dim == 2:
+                    # logarithmic GF: only differences are meaningful
+                    key0 = next(kk for kk in keys if kk[0] == k and kk[1] == j)
+                    gl0 = call(gfs, k, j, zcart(key0[2]), 4)
+                    if gl0 is None: continue
+                    d_impl, d_ref = gl - gl0 * lam, g4 - G4[key0]
+                    tol = 2 * tol + 5 * abs(G4[key0] - G6[key0])
+                else:
+                    d_impl, d_ref = gl, g4
+                dev = abs(d_impl - d_ref)
+                if not dev <= tol:
+                    viol('scale:%s' % rtag, 'all rates scaled by s=%g (%s): s*G_s=%.12g but G_1=%.12g (%s) at (%d,%d,%s) on %s'
+                         % (lam, how, d_impl, d_ref, 'differences' if dim == 2 else 'values', k, j, x.tolist(), name),
+                         dict(rep0, i=k, j=j, dx=x.tolist(), lam=lam, how=how, scaled=d_impl, unscaled=d_ref, tol=tol))
+                else:
+                    worst_round = max(worst_round, dev)
+            if worst_round > 1e-9 * gscale:
+                rec['disagree'].append(('homogeneity is exact (G_scale) but s*G_s deviates from G_1 by %.3g (|G| up to %.3g) for s=%g (%s) on %s: '
+                                        'far above rounding, below the BZ accuracy' % (worst_round, gscale, lam, how, name),
+                                        dict(rep0, lam=lam, how=how, deviation=worst_round), 'tie:scale-rounding'))
+            # the defining equation with the scaled rates, at two points (relative to the rate scale the residual is unchanged)
+            for (i, j, R, z, r1, tol) in np_res[:2]:
+                vals = [call(gfs, i, j, zcart(z), 4)] + [call(gfs, b, j, zcart([zc - dc for zc, dc in zip(z, dxl)]), 4) for sr, b, dxl in stencil[i]]
+                if any(v is None for v in vals): continue
+                rs = lam * (esc[i] * vals[0] + sum(sr * v for (sr, b, dxl), v in zip(stencil[i], vals[1:]))) - (1.0 if i == j and not any(R) else 0.0)
+                rec['cases'].append((('resid-scaled', name, kind, str(datarep)[:80], i, j, tuple(R), lam), True))
+                count('resid-scaled')
+                if not abs(rs) <= tol:
+                    viol('residual-scaled:%s' % rtag, 'all rates scaled by s=%g (%s): lattice equation residual %.3g exceeds tol_GF %.3g (residual %.3g at s=1) at G(%d,%d,R=%s) on %s'
+                         % (lam, how, rs, tol, r1, i, j, R, name), dict(rep0, lam=lam, how=how, point=[i, j, R], residual=rs, residual_unscaled=r1, tol=tol))
         # ---- far-field pole (3-D, connected)
         if dim == 3 and Ndiff == 1:
             pre, be = args[0], args[1]
